@@ -78,6 +78,18 @@ def r1(ctx):
         good = good and all(isinstance(v, App) and len(v.args) == 2 for v in vals)
     ctx.check(good, fp, "fake_prange forwards its arguments to numba.prange or range", role="fallback:prange",
               expected="numba.prange(*a, **k) | range(*a, **k)", found=str(rp)[:120])
+    # the import guard must catch every way `import numba` can fail
+    guards = [n for n in ast.walk(g.tree) if isinstance(n, ast.Try) and any(isinstance(x, ast.Import) and any(a.name == "numba" for a in x.names) for x in n.body)]
+    okg = False
+    found = "no try around `import numba`"
+    if guards:
+        hs = guards[0].handlers
+        names = [unparse(h.type) if h.type is not None else "<bare>" for h in hs]
+        found = ", ".join(names)
+        okg = any(nm in ("ImportError", "Exception", "BaseException", "<bare>") or "ImportError" in nm for nm in names) \
+            and all(not any(isinstance(x, ast.Raise) for x in ast.walk(h)) for h in hs)
+    ctx.check(okg, g.name, "the guard catches ImportError (Numba missing *or* unimportable) and falls back instead of failing the import",
+              role="fallback:import-guard", expected="except ImportError", found=found)
     # module-level selection
     sel = {}
     for n in ast.walk(g.tree):
@@ -352,7 +364,9 @@ def r5(ctx):
                 if n.id in mi.globals:
                     st = mi.globals[n.id]
                     n_glob += 1
-                    if not (isinstance(st, ast.Assign) and isinstance(st.value, ast.Constant)):
+                    rebound = any(isinstance(g, ast.Global) and n.id in g.names for f2 in ana.prog.functions.values() if f2.module is mi
+                                  for g in Resolver.walk_own(f2.node))
+                    if rebound or mi.global_assign_count.get(n.id, 0) != 1 or not (isinstance(st, ast.Assign) and isinstance(st.value, ast.Constant)):
                         bad.append(n)
         ctx.check(not bad, fi, f"kernel reads only modules, functions and constants from module scope ({n_glob} global reads)",
                   line=bad[0].lineno if bad else fi.node.lineno, role="globals", expected="no mutable module-level object",
